@@ -866,9 +866,13 @@ QueuedNow(p) == \E b \in Branches : QWN(p, b) \in DOMAIN refs' /\ QWN(p, b) \not
 DirectNow(p) == /\ JobKindNow \in {"EvalPR", "EvalChild", "EvalCommit"} /\ JobStatusNow = "SuccessMessage"
                 /\ SrcN(p) \in DOMAIN refs /\ BN(pr[p].dst) \in DOMAIN refs /\ BN(pr[p].dst) \in DOMAIN refs'
                 /\ ~ Leq(G, refs[SrcN(p)], refs[BN(pr[p].dst)]) /\ Leq(G', refs[SrcN(p)], refs'[BN(pr[p].dst)])
-TipsGreen(p) == \A n \in DOMAIN refs : (Kind(n) \in {"src", "w"} /\ n[2] = p /\ (Kind(n) = "w" => IsLive(BranchOf(n)))) =>
-                   Status(refs[n]) = "SUCCESSFUL"
-C06_Gate == [][~ Faults => \A p \in 1..NP : (QueuedNow(p) \/ DirectNow(p)) => (pr[p].byp \/ TipsGreen(p))]_vars
+\* the tips that were gated are the integration tips as the job leaves them (an update may fast-forward a w/ branch to an
+\* already built commit); after a direct merge the w/ branches are gone: only the source tip is looked at then
+TipsGreen(p) == \A n \in DOMAIN refs' : (Kind(n) \in {"src", "w"} /\ n[2] = p /\ (Kind(n) = "w" => IsLive(BranchOf(n)))) =>
+                   Status(refs'[n]) = "SUCCESSFUL"
+C06_Gate == [][~ Faults => \A p \in 1..NP :
+                 /\ QueuedNow(p) => (pr[p].byp \/ TipsGreen(p))
+                 /\ DirectNow(p) => (pr[p].byp \/ Status(refs[SrcN(p)]) = "SUCCESSFUL")]_vars
 C04_Gate == [][~ Faults => \A p \in 1..NP : (QueuedNow(p) \/ DirectNow(p)) => pr[p].appr]_vars
 \* a commit a user made on an integration branch is never dropped by the robot, except on a declined pull
 \* request, on an explicit force_reset, by the queue reset jobs, or when the pull request is merged from the queue (a commit
@@ -912,6 +916,16 @@ PlanOf(kind, arg) ==
 Posts(kind, arg) == LET pl == Dedupe(PlanOf(kind, arg).plan, lastmsg) IN \E j \in DOMAIN pl : pl[j].k = "comment"
 C10_Converge == [][(TrackRep /\ Atomic /\ last'[1] = "job" /\ rep'.n >= 4) =>
                      (refs' = refs /\ child' = child /\ greeted' = greeted /\ pr' = pr /\ ~ Posts(last'[2], last'[3]))]_vars
+\* a declined pull request is left alone (outside the queue: see the known finding for holds placed after queueing),
+\* and the evaluation that answers PullRequestDeclined leaves none of its integration data of the present cascade
+C12_Declined == [][\A p \in 1..NP : (pr[p].st = "declined" /\ pr'[p].st = "declined") =>
+                     /\ {n \in DOMAIN refs' : Kind(n) \in {"w", "qw"} /\ n[2] = p} \subseteq {n \in DOMAIN refs : Kind(n) \in {"w", "qw"} /\ n[2] = p}
+                     /\ \A n \in DestNames : DestMoved(n) =>
+                           (SrcN(p) \in DOMAIN refs => (Leq(G', refs[SrcN(p)], refs'[n]) => Leq(G, refs[SrcN(p)], refs[n])))]_vars
+C19_DeclineCleans == [][(JobStatusNow = "PullRequestDeclined" /\ JobKindNow \in {"EvalPR", "EvalChild"}) =>
+                          LET p == JobPrNow
+                              T == Targets(pr[p].dst)
+                          IN \A j \in DOMAIN T : WN(p, T[j]) \notin DOMAIN refs' /\ <<p, T[j]>> \notin child']_vars
 C19_Children == \A x \in child : (IsLive(x[2]) /\ IsLive(pr[x[1]].dst)) => pr[x[1]].st # "none" /\ \E j \in 2..Len(Targets(pr[x[1]].dst)) : Targets(pr[x[1]].dst)[j] = x[2]
 TypeOK == G.n >= NBase
 =============================================================================
